@@ -1,6 +1,9 @@
 package mon
 
 import (
+	"net"
+	"path/filepath"
+	"os"
 	"bytes"
 	"encoding/base64"
 	"encoding/binary"
@@ -162,6 +165,11 @@ func c15Run(w *core.W, q *dns.Msg, envs [][]*model.Rec, tsig bool, f c15Fault, r
 		wire := m.Wire()
 		if tsig {
 			t := &model.TSIG{KeyName: keyName, Algorithm: algName, TimeSigned: now, Fudge: 300}
+			if f.kind == "stale-time" && i == f.at {
+				// correctly keyed and chained, but signed outside the fudge window (RFC 8945 s.5.2.3 applies
+				// to every message of a multi-message answer): 301 s or 1000 s off, either side
+				t.TimeSigned = now + []uint64{^uint64(1000) + 1, 1000, ^uint64(301) + 1, 302}[(int(id)+i)%4]
+			}
 			secret := c15Secret
 			if f.kind == "wrongkey" && i == f.at {
 				secret = []byte("another secret another secret!!!")
@@ -330,6 +338,105 @@ func c15Run(w *core.W, q *dns.Msg, envs [][]*model.Rec, tsig bool, f c15Fault, r
 	}
 	sv.Close()
 	return res
+}
+
+// c15RealSockets: the same well-formed transfers over real stream sockets - TCP on the loopback interface
+// and a unix-domain stream socket (whose net.Conn also has the methods of a packet connection, but which
+// is a stream like TCP: framed envelopes, as many as the sender needs).
+func c15RealSockets(w *core.W, g *model.Gen, zone model.Name, j int) {
+	dir, derr := os.MkdirTemp("", "c15u")
+	if derr != nil {
+		w.Inconclusive("c15-tempdir")
+		return
+	}
+	defer os.RemoveAll(dir)
+	for ni, network := range []string{"unix", "tcp"} {
+		addr := "127.0.0.1:0"
+		if network == "unix" {
+			addr = filepath.Join(dir, "xfr.sock")
+		}
+		ln, lerr := net.Listen(network, addr)
+		if lerr != nil {
+			w.Inconclusive("c15-listen-" + network)
+			continue
+		}
+		for kind := 0; kind < 4; kind++ {
+			st := c15MakeStream(g, zone, kind)
+			for ci, comp := range []uint64{^uint64(0), 0, 1 << uint((len(st.recs)-1)/2)} {
+				envs := compose(st.recs, comp)
+				q := st.query(zone, uint16(7000+j+ni*100+kind*10+ci))
+				go func() { // the primary
+					c, err := ln.Accept()
+					if err != nil {
+						return
+					}
+					defer c.Close()
+					c.SetDeadline(time.Now().Add(c13Watch))
+					var l [2]byte
+					if _, err := io.ReadFull(c, l[:]); err != nil {
+						return
+					}
+					req := make([]byte, binary.BigEndian.Uint16(l[:]))
+					if _, err := io.ReadFull(c, req); err != nil {
+						return
+					}
+					for _, e := range envs {
+						m := &model.Msg{ID: binary.BigEndian.Uint16(req), Bits: 0x8400, Q: []model.Question{{Name: zone, Type: q.Question[0].Qtype, Class: 1}}, An: e}
+						if wire := m.Wire(); len(wire) <= 65535 {
+							c.Write(frame(wire))
+						}
+					}
+					io.Copy(io.Discard, c) // until the secondary hangs up
+				}()
+				c, cerr := net.Dial(network, ln.Addr().String())
+				if cerr != nil {
+					w.Inconclusive("c15-dial-" + network)
+					continue
+				}
+				tr := &dns.Transfer{Conn: &dns.Conn{Conn: c}, ReadTimeout: 5 * time.Second}
+				ch, ierr := tr.In(q, "unused")
+				w.Eval(1)
+				w.Count("real_socket_transfers_"+network, 1)
+				var sizes []int
+				for _, e := range envs {
+					sizes = append(sizes, len(e))
+				}
+				wit := map[string]any{"network": network, "kind": st.kind, "envelope_sizes": sizes}
+				if ierr != nil {
+					w.Violation("C15/real-socket/in-error/"+network, fmt.Sprintf("Transfer.In: %v", ierr), wit)
+					c.Close()
+					continue
+				}
+				var got [][]byte
+				var firstErr error
+				nenv := 0
+				finished := within(c13Watch, func() {
+					for env := range ch {
+						nenv++
+						if env.Error != nil && firstErr == nil {
+							firstErr = env.Error
+						}
+						for _, rr := range env.RR {
+							b, _ := packRR(rr)
+							got = append(got, b)
+						}
+					}
+				})
+				c.Close()
+				switch {
+				case !finished:
+					w.Violation("C15/real-socket/transfer-does-not-end/"+network+"/"+st.kind, fmt.Sprintf("envelope sizes %v: the channel was not closed", sizes), wit)
+				case firstErr != nil:
+					w.Violation("C15/real-socket/good-transfer-reports-error/"+network+"/"+st.kind, fmt.Sprintf("envelope sizes %v: %v", sizes, firstErr), wit)
+				default:
+					if i, ok := sameWires(got, wiresOf(st.recs)); !ok {
+						w.Violation("C15/real-socket/records-differ/"+network+"/"+st.kind, fmt.Sprintf("delivered %d records in %d envelopes, transmitted %d in %d (envelope sizes %v); first difference at record %d, yet the transfer was reported complete and error-free", len(got), nenv, len(st.recs), len(envs), sizes, i), wit)
+					}
+				}
+			}
+		}
+		ln.Close()
+	}
 }
 
 func mustName(s string) model.Name {
@@ -759,6 +866,9 @@ func c15Case(w *core.W, j int) {
 	if j%16 == 9 {
 		c15FullEnvelopes(w, g, zone, j)
 	}
+	if j%16 == 3 {
+		c15RealSockets(w, g, zone, j)
+	}
 	s := c15MakeStream(g, zone, j%4)
 	n := len(s.recs)
 	tsig := j%3 == 0
@@ -782,7 +892,7 @@ func c15Case(w *core.W, j int) {
 	// faults
 	faults := []string{"first-not-soa", "rcode", "id", "rcode-noquestion"}
 	if tsig {
-		faults = append(faults, "alter", "reorder", "unsign", "wrongkey", "emptymac", "idwire", "append-after-tsig")
+		faults = append(faults, "alter", "reorder", "unsign", "wrongkey", "emptymac", "idwire", "append-after-tsig", "stale-time")
 	}
 	for _, c := range []uint64{comps[0], comps[len(comps)-1], comps[len(comps)/2]} {
 		ne := len(compose(s.recs, c))
